@@ -8,6 +8,7 @@ package harness
 import (
 	"fmt"
 	"math/rand/v2"
+	"runtime/debug"
 	"time"
 )
 
@@ -415,19 +416,36 @@ func init() {
 		}
 		// stored cases that run first: a call that overruns its timeout and returns late, followed by another attempt of the
 		// same action or by the next action. Whatever the late call delivers belongs to the abandoned attempt and must
-		// not show up in a later one (each shape three times: where a late result lands depends on the scheduler).
+		// not show up in a later one. Where a late result lands depends on the scheduler and, if the code recycles
+		// anything through a sync.Pool, on the garbage collector: each shape is repeated, spread over all workers, and the
+		// collector is held off while they run.
 		ovr := Outcome{Resp: "good", Err: "none", Overrun: true}
+		tr := Outcome{Resp: "nil", Err: "transient"}
 		var stored []*c05Case
-		for rep := 0; rep < 3; rep++ {
+		for rep := 0; rep < 8; rep++ {
 			for ret := 1; ret <= 2; ret++ {
 				stored = append(stored,
 					&c05Case{XRetries: 0, XScript: []Outcome{okOutcome}, YRetries: ret, YScript: []Outcome{ovr, okOutcome}},
 					&c05Case{XRetries: ret, XScript: []Outcome{ovr, okOutcome}, YRetries: 0, YScript: []Outcome{okOutcome}},
-					&c05Case{XRetries: 0, XScript: []Outcome{okOutcome}, YRetries: ret + 1, YScript: []Outcome{ovr, {Resp: "nil", Err: "transient"}, okOutcome}})
+					&c05Case{XRetries: 0, XScript: []Outcome{okOutcome}, YRetries: ret + 1, YScript: []Outcome{ovr, tr, okOutcome}})
 			}
 			stored = append(stored, &c05Case{XRetries: 1, XScript: []Outcome{ovr, okOutcome}, YRetries: 1, YScript: []Outcome{ovr, okOutcome}})
 		}
-		cases = append(stored, cases...)
+		gcWas := debug.SetGCPercent(-1)
+		parallel(workers, workers, func(w int) {
+			m := getModel()
+			defer putModel(m)
+			env, err := newEngineEnv("")
+			if err != nil {
+				return
+			}
+			defer env.close()
+			for i := w; i < len(stored); i += workers {
+				runC05Case(r, m, env, stored[i], 1000000+i)
+				r.count("stored overrun case")
+			}
+		})
+		debug.SetGCPercent(gcWas)
 		if cfg.Tier == "thorough" {
 			// exhaustive: all scripts of length <= 3 over 6 classes, budgets 0..2, as Y (X trivial) and as X (Y trivial)
 			classes := []Outcome{{Resp: "good", Err: "none"}, {Resp: "nil", Err: "transient"}, {Resp: "nil", Err: "permanent"}, {Resp: "bad", Err: "transient"}, {Resp: "good", Err: "transient"}, {Resp: "nil", Err: "none"}}
